@@ -576,4 +576,8 @@ MUTATIONS += [
     dict(id="q-r11c-shared-shift-times-n", quiet=True, patch="seeded/C13g/patch.diff", edits=[(SEMI, "        return safelog(func_exp_xs) + max_x", "        return safelog(func_exp_xs) + len(xs) * max_x")], expect={}),
     dict(id="q-r4a-scatter-index-expanded", quiet=True, patch="seeded/C12g/patch.diff", edits=[(TNODES, "        return weight.scatter(2, col_idx.unsqueeze(dim=0), x)", "        return weight.scatter(2, col_idx.unsqueeze(dim=0).expand(x.shape[0], -1, -1), x)")], expect={}),
     dict(id="q-r14x-keyword-construction", quiet=True, file="cirkit/symbolic/circuit.py", old="        return StructuralProperties(\n            self.is_smooth,\n            self.is_decomposable,\n            self.is_structured_decomposable,\n            self.is_omni_compatible,\n        )", new="        return StructuralProperties(\n            decomposable=self.is_decomposable,\n            smooth=self.is_smooth,\n            structured_decomposable=self.is_structured_decomposable,\n            omni_compatible=self.is_omni_compatible,\n        )", expect={}),
+    # ---- wave-10 seeds as kept (short round: three changes, all reported by rules as they stood)
+    dict(id="w10-c09g", patch="seeded/C09g/patch.diff", expect={'C09': ['R7d:'], 'C08': ['R7d:']}, allow_others=True),
+    dict(id="w10-c17g", patch="seeded/C17g/patch.diff", expect={'C17': ['R4i:']}, allow_others=True),
+    dict(id="w10-c18g", patch="seeded/C18g/patch.diff", expect={'C18': ['R6b:'], 'C10': ['R6b:']}, allow_others=True),
 ]
